@@ -11,14 +11,20 @@ import (
 	rolloutapi "github.com/openkruise/rollouts/api"
 	"github.com/openkruise/rollouts/api/v1alpha1"
 	"github.com/openkruise/rollouts/api/v1beta1"
+	"github.com/openkruise/rollouts/pkg/trafficrouting"
 	"github.com/openkruise/rollouts/pkg/util"
 	"github.com/openkruise/rollouts/pkg/webhook/rollout/validating"
 	admissionv1 "k8s.io/api/admission/v1"
+	corev1 "k8s.io/api/core/v1"
+	netv1 "k8s.io/api/networking/v1"
 	metav1 "k8s.io/apimachinery/pkg/apis/meta/v1"
+	"k8s.io/apimachinery/pkg/apis/meta/v1/unstructured"
 	"k8s.io/apimachinery/pkg/runtime"
+	clientgoscheme "k8s.io/client-go/kubernetes/scheme"
 	"sigs.k8s.io/controller-runtime/pkg/client"
 	"sigs.k8s.io/controller-runtime/pkg/client/fake"
 	"sigs.k8s.io/controller-runtime/pkg/webhook/admission"
+	gatewayv1beta1 "sigs.k8s.io/gateway-api/apis/v1beta1"
 
 	"verifharness/lib"
 )
@@ -30,6 +36,8 @@ var (
 
 func init() {
 	_ = rolloutapi.AddToScheme(scheme)
+	_ = clientgoscheme.AddToScheme(scheme)
+	_ = gatewayv1beta1.AddToScheme(scheme)
 	decoder, _ = admission.NewDecoder(scheme)
 }
 
@@ -561,6 +569,12 @@ func evalCase(c *Case, logf func(string, ...interface{})) (*result, error) {
 				}
 			}},
 		}
+		// the traffic-routing manager is what the Rollout controller hands spec.strategy.*.trafficRoutings and the
+		// current step to (Initializing, every step, finalising); run it on a store that holds the referenced objects
+		helpers = append(helpers, struct {
+			name string
+			f    func()
+		}{"trafficrouting.Manager", func() { smokeTrafficRouting(beta) }})
 		for _, hp := range helpers {
 			if p := lib.Catch(hp.f); p != nil {
 				site := p.Site
@@ -586,4 +600,54 @@ func trimStack(s string) string {
 		}
 	}
 	return strings.Join(keep, "\n")
+}
+
+// smokeTrafficRouting drives the real trafficrouting.Manager the way the Rollout controller does (context built
+// like newTrafficRoutingContext) for every step of an accepted Rollout, on a fake store that holds the Services,
+// Ingresses, HTTPRoute and VirtualService the generated specs refer to. Errors are fine; panics are not.
+func smokeTrafficRouting(ro *v1beta1.Rollout) {
+	refs := ro.Spec.Strategy.GetTrafficRouting()
+	if len(refs) == 0 {
+		return
+	}
+	ns := ro.Namespace
+	pt := netv1.PathTypePrefix
+	var objs []client.Object
+	for _, svc := range []string{"svc", "svc2"} {
+		objs = append(objs, &corev1.Service{ObjectMeta: metav1.ObjectMeta{Namespace: ns, Name: svc},
+			Spec: corev1.ServiceSpec{Selector: map[string]string{"app": "demo"}, Ports: []corev1.ServicePort{{Port: 80}}}})
+	}
+	for _, ing := range []string{"ing", "ing2"} {
+		objs = append(objs, &netv1.Ingress{ObjectMeta: metav1.ObjectMeta{Namespace: ns, Name: ing, Annotations: map[string]string{"kubernetes.io/ingress.class": "nginx"}},
+			Spec: netv1.IngressSpec{Rules: []netv1.IngressRule{{Host: "a.example.com", IngressRuleValue: netv1.IngressRuleValue{HTTP: &netv1.HTTPIngressRuleValue{
+				Paths: []netv1.HTTPIngressPath{{Path: "/", PathType: &pt, Backend: netv1.IngressBackend{Service: &netv1.IngressServiceBackend{Name: "svc", Port: netv1.ServiceBackendPort{Number: 80}}}}}}}}}}})
+	}
+	kind, group, port, weight := gatewayv1beta1.Kind("Service"), gatewayv1beta1.Group(""), gatewayv1beta1.PortNumber(80), int32(1)
+	objs = append(objs, &gatewayv1beta1.HTTPRoute{ObjectMeta: metav1.ObjectMeta{Namespace: ns, Name: "route"},
+		Spec: gatewayv1beta1.HTTPRouteSpec{Rules: []gatewayv1beta1.HTTPRouteRule{{BackendRefs: []gatewayv1beta1.HTTPBackendRef{{BackendRef: gatewayv1beta1.BackendRef{
+			BackendObjectReference: gatewayv1beta1.BackendObjectReference{Group: &group, Kind: &kind, Name: "svc", Port: &port}, Weight: &weight}}}}}}})
+	vs := &unstructured.Unstructured{Object: map[string]interface{}{"apiVersion": "networking.istio.io/v1alpha3", "kind": "VirtualService",
+		"metadata": map[string]interface{}{"namespace": ns, "name": "vs"},
+		"spec":     map[string]interface{}{"hosts": []interface{}{"*"}, "http": []interface{}{map[string]interface{}{"route": []interface{}{map[string]interface{}{"destination": map[string]interface{}{"host": "svc"}}}}}}}}
+	objs = append(objs, vs)
+	cli := fake.NewClientBuilder().WithScheme(scheme).WithObjects(objs...).Build()
+	mgr := trafficrouting.NewTrafficRoutingManager(cli)
+	for _, step := range ro.Spec.Strategy.GetSteps() {
+		c := &trafficrouting.TrafficRoutingContext{
+			Key: "Rollout(" + ns + "/" + ro.Name + ")", Namespace: ns, ObjectRef: refs, Strategy: step.TrafficRoutingStrategy,
+			OwnerRef:         *metav1.NewControllerRef(ro, v1beta1.SchemeGroupVersion.WithKind("Rollout")),
+			RevisionLabelKey: "pod-template-hash", StableRevision: "s1", CanaryRevision: "c1",
+			DisableGenerateCanaryService: ro.Spec.Strategy.DisableGenerateCanaryService(),
+		}
+		_ = mgr.InitializeTrafficRouting(c)
+		_, _ = mgr.PatchStableService(c)
+		_, _ = mgr.DoTrafficRouting(c)
+		_, _ = mgr.DoTrafficRouting(c)
+	}
+	c := &trafficrouting.TrafficRoutingContext{Key: "Rollout(" + ns + "/" + ro.Name + ")", Namespace: ns, ObjectRef: refs,
+		OwnerRef: *metav1.NewControllerRef(ro, v1beta1.SchemeGroupVersion.WithKind("Rollout")), RevisionLabelKey: "pod-template-hash", StableRevision: "s1", CanaryRevision: "c1"}
+	if steps := ro.Spec.Strategy.GetSteps(); len(steps) > 0 {
+		c.Strategy = steps[0].TrafficRoutingStrategy
+	}
+	_, _ = mgr.FinalisingTrafficRouting(c)
 }
